@@ -320,6 +320,11 @@ def leaf(run_tag, i, key):
     return 'u:%s:%d:%s' % (run_tag, i, key)
 
 
+# something that is a perfectly good result and cannot be copied or pickled
+# (an open handle, a generator over the results)
+HANDLE = (x for x in ())
+
+
 def scripted_update(scn, i, run_tag='r'):
     '''The environment update task i returns (fresh objects every call).'''
     tsk = scn['tasks'][i]
@@ -334,6 +339,7 @@ def scripted_update(scn, i, run_tag='r'):
         upd['shared-area'] = {'by': {name: leaf(run_tag, i, 'shared')}}
         # top-level values that are not mappings (a seed, a list of names)
         upd['seed-of-%d' % i] = leaf(run_tag, i, 'seed')
+        upd[name]['handle'] = HANDLE
         upd['list-of-%d' % i] = [leaf(run_tag, i, 'item'), i]
     if tsk.get('hints'):
         # a word for the tasks that depend on this one, left in THEIR entries
@@ -514,9 +520,13 @@ def build_tasks(scn, mods, recorder, run_tag='r', run_no=0, state=None):
             raise ProbeError('scripted failure of %s' % specs[i]['name'])
         if specs[i]['outcome'] == 'sysexit':
             # exceptions that are not Exceptions
-            kind = specs[i].get('variant', 0) % 4
+            kind = specs[i].get('variant', 0) % 6
             if kind == 0:
                 raise SystemExit(3)
+            if kind == 4:
+                raise SystemExit(0)     # sys.exit(0), sys.exit(main())
+            if kind == 5:
+                raise SystemExit()      # sys.exit()
             if kind == 1:
                 raise KeyboardInterrupt()
             if kind == 2:
